@@ -87,7 +87,14 @@ func runC09(c string) string {
 			switch op[0] {
 			case "combine":
 				cf.Combine(frameOfRows(parseKV(op[1:])))
-				out = append(out, fmt.Sprintf("len=%d cap=%d thr=%d", cf.Len(), cf.Cap(), exec.VerifThreshold(cf)))
+				// the hash table slot by slot (compared with the table model BS.Table)
+				idx, data := exec.VerifCFSlots(cf)
+				ks, vs := data.Interface(0).([]int64), data.Interface(1).([]int64)
+				slots := make([]string, len(idx))
+				for j, i := range idx {
+					slots[j] = fmt.Sprintf("%d:%d:%d", i, ks[i], vs[i])
+				}
+				out = append(out, fmt.Sprintf("len=%d cap=%d thr=%d slots=%s", cf.Len(), cf.Cap(), exec.VerifThreshold(cf), strings.Join(slots, ",")))
 			case "compact":
 				f := cf.Compact()
 				out = append(out, fmt.Sprintf("rows=%s len=%d", sortedRows(f), cf.Len()))
